@@ -362,6 +362,12 @@ func (c *simClient) GetServerKeys(ctx context.Context, name spec.ServerName) (gm
 		defer rec.out.Add(-1)
 	}
 	c.w.s.Yield(task, label)
+	if err := ctx.Err(); err != nil {
+		// a real HTTP client does not even start a request whose context has ended
+		c.w.r.Fault("ctx_done_before_request")
+		c.note(task+"|"+label, &respRec{kind: "error"})
+		return gmsl.ServerKeys{}, err
+	}
 	if err := c.sleep(ctx, task, label, c.latency()); err != nil {
 		c.w.r.Fault("timeout")
 		c.w.r.Logf("  %s[%s] -> %v", label, task, err)
@@ -414,6 +420,11 @@ func (c *simClient) LookupServerKeys(ctx context.Context, via spec.ServerName, r
 	}
 	c.w.s.Yield(task, label)
 	key := task + "|" + label
+	if err := ctx.Err(); err != nil {
+		c.w.r.Fault("ctx_done_before_request")
+		c.note(key, &respRec{kind: "error"})
+		return nil, err
+	}
 	if err := c.sleep(ctx, task, label, c.latency()); err != nil {
 		c.w.r.Fault("timeout")
 		c.note(key, &respRec{kind: "error"})
